@@ -347,6 +347,8 @@ std::string edgeStr(const dd_edge& e, const Kind& k) {
 void dumpForest(const char* name, forest* F, const Kind& k) {
     node_handle last = F->getLastNode();
     long live = 0, badViews = 0, badHash = 0, badFind = 0;
+    // harness-side recount, used only to mark the case suspicious when screening (the verdict is the acceptor's)
+    std::map<node_handle, unsigned long> refs, reported;
     for (node_handle h = 1; h <= last; h++) {
         if (!F->isActiveNode(h)) continue;
         if (F->isDeletedNode(h)) continue;
@@ -359,10 +361,12 @@ void dumpForest(const char* name, forest* F, const Kind& k) {
         snprintf(buf, sizeof buf, " %d %d %lu %lu %u", h, posOfLevel(k.rel, lvl), F->getNodeInCount(h),
                  F->verifCacheCount(h), U->getSize());
         s += buf;
+        reported[h] = F->getNodeInCount(h);
         for (unsigned i = 0; i < U->getSize(); i++) {
             s += ' ';
             s += childStr(F, k, U->down(i));
             if (U->hasEdges()) s += evStr(U->edgeval(i));
+            if (U->down(i) > 0) ++refs[U->down(i)];
         }
         // the sparse view must describe the same index -> (edge value, child) map as the full view, and
         // both views must hash like the stored node (the unique table is rebucketed with hashNode)
@@ -400,9 +404,12 @@ void dumpForest(const char* name, forest* F, const Kind& k) {
     std::vector<node_handle> roots;
     F->verifRoots(roots);
     std::string s = std::string("roots ") + name;
-    for (node_handle r : roots) { s += ' '; s += childStr(F, k, r); }
+    for (node_handle r : roots) { s += ' '; s += childStr(F, k, r); if (r > 0) ++refs[r]; }
     emits(s);
     emit("count %s live %ld reported %ld", name, live, F->getCurrentNumNodes());
+    if (badViews || badHash || badFind || live != F->getCurrentNumNodes()) markSuspect();
+    for (auto& pr : reported) if (refs[pr.first] != pr.second) { markSuspect(); break; }
+    for (auto& pr : refs) if (!reported.count(pr.first)) { markSuspect(); break; }
 }
 
 void emitForest(const std::string& name, forest* F, const Kind& k, const Pol& p) {
